@@ -197,6 +197,37 @@ def findOrInsertP2 (h : Nat → Nat) (t : Table) (k v : Nat) : Res (Bool × Nat 
     if t1.entries ≥ t1.N then .full t1
     else .ok (false, p, v, { t1 with s := set t.s p (some (k, v)) })
 
+/-- `Double` as `ProbingHashTable<…, Power2Mod>` executes it: `mask_ = (mask_ << 1) | 1` and the
+mask versions of `Ideal` / `Next` in every `UncheckedInsert` -/
+def reinsertP2 (h : Nat → Nat) (N' : Nat) : (n i : Nat) → Slots → Option Slots
+  | 0, _, s => some s
+  | n+1, i, s =>
+    match s i with
+    | none => reinsertP2 h N' n (i + 1) s
+    | some (k, v) =>
+      match firstEmptyWith (nextP2 N') (set s i none) N' (idealP2 h N' k) with
+      | none => none
+      | some q => reinsertP2 h N' n (i + 1) (set (set s i none) q (some (k, v)))
+
+def insertAllP2 (h : Nat → Nat) (N' : Nat) : List Entry → Slots → Option Slots
+  | [], s => some s
+  | (k, v) :: rest, s =>
+    match firstEmptyWith (nextP2 N') s N' (idealP2 h N' k) with
+    | none => none
+    | some q => insertAllP2 h N' rest (set s q (some (k, v)))
+
+def doubleP2 (h : Nat → Nat) (t : Table) : Option Table :=
+  let mask' := ((t.N - 1) <<< 1) ||| 1
+  let N' := mask' + 1
+  let s0 := clearRange t.s t.N (2 * t.N)
+  let r := rollPrefix s0 t.N 0
+  match reinsertP2 h N' t.N 0 r.1 with
+  | none => none
+  | some s2 =>
+    match insertAllP2 h N' r.2 s2 with
+    | none => none
+    | some s3 => some { s := s3, N := 2 * t.N, entries := t.entries }
+
 /-! ### `AutoProbing` -/
 
 /-- `backend_` and `threshold_` -/
@@ -234,6 +265,30 @@ def Auto.findOrInsert (h : Nat → Nat) (θ : Nat → Nat) (a : Auto) (k v : Nat
     | .ok (b, p, w, t') => .ok (b, p, w, { a2 with t := t' })
 
 def Auto.find (h : Nat → Nat) (a : Auto) (k : Nat) : Option (Option Nat) := KV.Probing.find h a.t k
+
+/-- `AutoProbing` with its real backend `ProbingHashTable<…, Power2Mod>` (mask arithmetic, literally) -/
+def doubleIfNeededP2 (h : Nat → Nat) (θ : Nat → Nat) (a : Auto) : Option Auto :=
+  if a.t.entries < a.thr then some a
+  else match doubleP2 h a.t with
+    | none => none
+    | some t' => some { t := t', thr := θ t'.N }
+
+def Auto.insertP2 (h : Nat → Nat) (θ : Nat → Nat) (a : Auto) (k v : Nat) : Option (Nat × Auto) :=
+  match doubleIfNeededP2 h θ { a with t := { a.t with entries := a.t.entries + 1 } } with
+  | none => none
+  | some a2 =>
+    match KV.Probing.uncheckedInsertP2 h a2.t k v with
+    | none => none
+    | some (q, t') => some (q, { a2 with t := t' })
+
+def Auto.findOrInsertP2 (h : Nat → Nat) (θ : Nat → Nat) (a : Auto) (k v : Nat) : Res (Bool × Nat × Nat × Auto) :=
+  match doubleIfNeededP2 h θ a with
+  | none => .diverge
+  | some a2 =>
+    match KV.Probing.findOrInsertP2 h a2.t k v with
+    | .diverge => .diverge
+    | .full t' => .full t'
+    | .ok (b, p, w, t') => .ok (b, p, w, { a2 with t := t' })
 
 /-! ### operation scripts and their map specification -/
 
@@ -334,6 +389,33 @@ def runA (h : Nat → Nat) (θ : Nat → Nat) : Auto → List Op → Option (Lis
     | none => none
     | some (o, a') =>
       match runA h θ a' ops with
+      | none => none
+      | some (os, a'') => some (o :: os, a'')
+
+/-- one operation on `AutoProbing` with the literal `Power2Mod` backend -/
+def stepAP2 (h : Nat → Nat) (θ : Nat → Nat) (a : Auto) : Op → Option (Out × Auto)
+  | .insert k v =>
+    match a.insertP2 h θ k v with
+    | some (_, a') => some (.done, a')
+    | none => none
+  | .findOrInsert k v =>
+    match a.findOrInsertP2 h θ k v with
+    | .ok (b, _, w, a') => some (.foi b w, a')
+    | .full t' => some (.full, { a with t := t' })
+    | .diverge => none
+  | .find k =>
+    match findPosP2 h a.t k with
+    | some (.found _ v) => some (.got (some v), a)
+    | some (.absent _) => some (.got none, a)
+    | none => none
+
+def runAP2 (h : Nat → Nat) (θ : Nat → Nat) : Auto → List Op → Option (List Out × Auto)
+  | a, [] => some ([], a)
+  | a, op :: ops =>
+    match stepAP2 h θ a op with
+    | none => none
+    | some (o, a') =>
+      match runAP2 h θ a' ops with
       | none => none
       | some (os, a'') => some (o :: os, a'')
 
